@@ -1,25 +1,115 @@
 //! height limits and misuse (C19)
 //!
+//! Two worlds, chosen by the family prefix:
+//!
+//! * `height/...` ([`height::HeightWorld`]): one graph shape (map chain, bind nest around map
+//!   chains) on a state limited with `new_with_height(N)` and/or `set_max_height_allowed(M)`,
+//!   run in lock-step with a *twin*: the same graph on an unlimited `IncrState::new()`. The
+//!   height a history needs is read from the twin (`verif_max_height_in_use`, plus the
+//!   `seen=` field of its dump to detect transient heights); no height convention is baked in.
+//!   Alphabet: Build, Observe, Unobserve, Stabilise, SetMax(M), SetSel (grow / shrink the bind's
+//!   right-hand side), SetW (plain value change), and - once an expected panic poisoned the
+//!   state - Drop(order) for four drop orders of observers / nodes / vars / state.
+//! * `misuse/...` ([`misuse::MisuseWorld`]): grammar-enumerated programs of <= 4 nodes with
+//!   late-bound bind right-hand sides (cycles), foreign-state right-hand sides, and node
+//!   functions / update handlers / subscription handlers that call `stabilise`. Reference:
+//!   from-scratch evaluation that reports the misuse reachable from the observed nodes.
+//!   Alphabet: Observe(i), SetVar(k), Stabilise, SubscribeStab(i), Drop(order).
+//!
+//! Families (`hx dev limits <family> <depth>`), recommended depths quick | thorough:
+//!
+//! | family            | what                                                   | quick | thorough |
+//! |-------------------|--------------------------------------------------------|-------|----------|
+//! | `height/ctor`     | `new_with_height(N)`, N=1..6 (10), SetMax M=1..8 (12)  |   7   |    8     |
+//! | `height/default`  | `IncrState::new()` then SetMax                         |   7   |    8     |
+//! | `misuse/cycle`    | cycles through 1-2 binds + >=1 other node, <=4 nodes    |   5   |    7     |
+//! | `misuse/cross`    | bind returning a node of another state                 |   5   |    7     |
+//! | `misuse/nested`   | stabilise from map fn / on_update / subscription       |   5   |    7     |
+//!
+//! One unit = one program; all families are explored with digest pruning (closures are pure
+//! functions of values printed in the digest). The drop phase after an expected panic costs
+//! one extra action (`Drop(order)`), so depth d judges drops after panics at depth <= d-1.
+//!
+//! Rules: C19.accepts, C19.rejects, C19.message, C19.when, C19.shrink_panics, C19.cycle,
+//! C19.cross_state, C19.nested_stabilise, C19.drop_after_panic, C19.panic (panic in a
+//! well-formed, unlimited part of a history, including the twin).
+//!
+//! Hangs and stack overflows cannot be caught in-process: the explorer marks every history
+//! before executing it (`Marker`), the worker's 30 s watchdog / the supervisor attribute them.
+//!
 //! Entry points used by `plan.rs` (keep these four signatures).
+
+mod height;
+mod misuse;
 
 use crate::core::{Cfg, Violation};
 use crate::explore::{Marker, Stats};
 use crate::plan::{JobDef, Tier};
+use height::{HProg, HeightWorld};
+use misuse::{MProg, MisuseWorld};
 use serde_json::Value as Json;
+use std::cell::RefCell;
+use std::collections::HashMap;
+use std::rc::Rc;
 use std::time::Instant;
 
-pub fn units(_job: &JobDef, _tier: Tier) -> usize {
-    0
+thread_local! {
+    static HCACHE: RefCell<HashMap<String, Rc<Vec<HProg>>>> = RefCell::new(HashMap::new());
+    static MCACHE: RefCell<HashMap<String, Rc<Vec<MProg>>>> = RefCell::new(HashMap::new());
 }
 
-pub fn run_unit(_job: &JobDef, _job_ix: u32, _unit: usize, _tier: Tier, _deadline: Option<Instant>, _marker: &Marker, stats: &mut Stats) {
-    stats.machinery_errors.push("world not implemented".into());
+fn is_height(family: &str) -> bool {
+    family.starts_with("height/")
 }
 
-pub fn replay(_cfg: &Cfg, _prog: &Json, _history: &[Json]) -> Result<(Vec<(usize, Violation)>, Vec<String>, u64), String> {
-    Err("world not implemented".into())
+fn hprogs(job: &JobDef, tier: Tier) -> Rc<Vec<HProg>> {
+    let key = format!("{}/{}", job.family, tier.name());
+    if let Some(p) = HCACHE.with(|c| c.borrow().get(&key).cloned()) {
+        return p;
+    }
+    let p = Rc::new(height::family(&job.family, tier));
+    HCACHE.with(|c| c.borrow_mut().insert(key, p.clone()));
+    p
 }
 
-pub fn history_from_choices(_job: &JobDef, _unit: usize, _tier: Tier, _choices: &[u16]) -> Option<(Json, Vec<Json>)> {
-    None
+fn mprogs(job: &JobDef, tier: Tier) -> Rc<Vec<MProg>> {
+    let key = format!("{}/{}", job.family, tier.name());
+    if let Some(p) = MCACHE.with(|c| c.borrow().get(&key).cloned()) {
+        return p;
+    }
+    let p = Rc::new(misuse::family(&job.family, tier));
+    MCACHE.with(|c| c.borrow_mut().insert(key, p.clone()));
+    p
+}
+
+pub fn units(job: &JobDef, tier: Tier) -> usize {
+    if is_height(&job.family) {
+        crate::driver::units::<HeightWorld>(&hprogs(job, tier), job)
+    } else {
+        crate::driver::units::<MisuseWorld>(&mprogs(job, tier), job)
+    }
+}
+
+pub fn run_unit(job: &JobDef, job_ix: u32, unit: usize, tier: Tier, deadline: Option<Instant>, marker: &Marker, stats: &mut Stats) {
+    if is_height(&job.family) {
+        crate::driver::run_unit::<HeightWorld>(&hprogs(job, tier), job, job_ix, unit, deadline, marker, stats)
+    } else {
+        crate::driver::run_unit::<MisuseWorld>(&mprogs(job, tier), job, job_ix, unit, deadline, marker, stats)
+    }
+}
+
+pub fn replay(cfg: &Cfg, prog: &Json, history: &[Json]) -> Result<(Vec<(usize, Violation)>, Vec<String>, u64), String> {
+    if prog.get("world").and_then(|w| w.as_str()) == Some("height") {
+        crate::driver::replay::<HeightWorld>(cfg, prog, history)
+    } else {
+        crate::driver::replay::<MisuseWorld>(cfg, prog, history)
+    }
+}
+
+pub fn history_from_choices(job: &JobDef, unit: usize, tier: Tier, choices: &[u16]) -> Option<(Json, Vec<Json>)> {
+    if is_height(&job.family) {
+        crate::driver::history_from_choices::<HeightWorld>(&hprogs(job, tier), job, unit, choices)
+    } else {
+        crate::driver::history_from_choices::<MisuseWorld>(&mprogs(job, tier), job, unit, choices)
+    }
 }
